@@ -12,6 +12,7 @@ import itertools
 from sexp import Sym
 
 PROP = "C45"
+READY = True
 DRIVER = "dm_dfpart"
 LEAN_MODULES = ["DaskModel.Props.C45"]
 ASSUMPTIONS = ["values are compared only through <, <=, == (interned order-preservingly to Nat for the model)",
